@@ -125,10 +125,14 @@ def run(chk, repo):
         fi = mod.func(fname)
         where = f"{mod.relpath}:{fname}"
         flow = Flow(fi)
-        mcalls = [c for c in calls_in(fi) if isinstance(c.func, ast.Attribute) and c.func.attr in ("match", "fullmatch", "search") and isinstance(c.func.value, ast.Name) and c.func.value.id == rname]
+        host, mcalls = find_match_calls(repo, fi, rname)
         if len(mcalls) != 1:
-            raise AnalysisError(f"{where}: expected exactly one match call on {rname}, found {len(mcalls)}")
+            raise AnalysisError(f"{where}: expected exactly one match call on {rname} (directly or in a helper it is passed to), found {len(mcalls)}")
         mc = mcalls[0]
+        if host is not fi:
+            where = f"{mod.relpath}:{fname} -> {host.qualname}"
+        flow = Flow(host)
+        fi_host = host
         anchored = mc.func.attr == "fullmatch" or (mc.func.attr == "match" and rx[rname].ends_anchored())
         chk.require(anchored, "C15-L3", where, f"{rname}.{mc.func.attr} matches the whole string",
                     f"{fname} uses {rname}.{mc.func.attr}(): a valid prefix followed by trailing garbage is accepted instead of rejected",
@@ -136,9 +140,9 @@ def run(chk, repo):
         # if match is None: raise ValueError
         ok_none = False
         from ..callgraph import guards_of
-        for n in fi.own_nodes():
+        for n in fi_host.own_nodes():
             if isinstance(n, ast.Raise) and n.exc is not None and norm(n.exc.func if isinstance(n.exc, ast.Call) else n.exc) == "ValueError":
-                for test, pol in guards_of(n, fi.node):
+                for test, pol in guards_of(n, fi_host.node):
                     t = norm(flow.expand(test))
                     if pol and "is None" in t and norm(mc) in t:
                         ok_none = True
@@ -206,8 +210,32 @@ def run(chk, repo):
     pol = F.groups.get("polarization")
     chk.require(pol is not None and pol["lang"] == {"HH", "HV", "VH", "VV"}, "C15-L5", f"{mod.relpath}:fname_re", "polarisation is [HV]{2}",
                 f"polarisation language is {_fmt(pol['lang']) if pol else None}", key="fname:polarization")
+    from .c13 import groupname_injective
+    chk.rule("C15-L7", "the image group name is unique per (polarisation, scan): exhaustive over the 55 combinations the grammar admits", 2)
+    chk.attempt(groupname_injective, chk, repo, "C15-L7")
     if chk.tier == "thorough":
         enumerate_ids(chk, mod, rx, trans)
+
+
+def find_match_calls(repo, fi, rname):
+    """match/fullmatch/search calls on the regex ``rname``: in fi itself, or in a helper that receives the regex as an argument"""
+    from ..interproc import bind_args
+    direct = [c for c in calls_in(fi) if isinstance(c.func, ast.Attribute) and c.func.attr in ("match", "fullmatch", "search") and isinstance(c.func.value, ast.Name) and c.func.value.id == rname]
+    if direct:
+        return fi, direct
+    for c in calls_in(fi):
+        if not any(isinstance(a, ast.Name) and a.id == rname for a in list(c.args) + [k.value for k in c.keywords]):
+            continue
+        for cal in resolve_callees(repo, fi, c.func):
+            if cal.func is None:
+                continue
+            bound, _ = bind_args(cal, c)
+            params = [p for p, v in bound.items() if isinstance(v, ast.Name) and v.id == rname]
+            for p in params:
+                inner = [x for x in calls_in(cal.func) if isinstance(x.func, ast.Attribute) and x.func.attr in ("match", "fullmatch", "search") and isinstance(x.func.value, ast.Name) and x.func.value.id == p]
+                if inner:
+                    return cal.func, inner
+    return fi, []
 
 
 def _fmt(L):
